@@ -6,7 +6,8 @@ From Helm Require Import Values.Tree Common.Assoc
   Misc.PanicsDeps Misc.PanicsDepsProofs Misc.PanicsIndex Misc.PanicsIndexProofs
   Misc.PanicsSort Misc.PanicsSortProofs Misc.PanicsSchema Misc.PanicsSchemaProofs
   Misc.PanicsStrvalsLex Misc.PanicsStrvals Misc.PanicsStrvalsProofs Gen.C20Tables
-  Misc.PanicsSchemaCoalesce.
+  Misc.PanicsSchemaCoalesce
+  Misc.PanicsRec Misc.PanicsRecProofs Misc.PanicsGate Misc.PanicsGateProofs Gen.C20Rec Misc.PanicsTie.
 From Helm Require Values.Coalesce.
 Import ListNotations.
 Local Open Scope string_scope.
@@ -390,3 +391,157 @@ Theorem C20_strvals_unguarded_refuted :
   is_panic (set_index_body (2 ^ 62) (2 ^ 40) [] (2 ^ 41) VNull) = true.
 Proof. exact (conj parse_without_recover_panics set_index_unbounded_panics). Qed.
 Print Assumptions C20_strvals_unguarded_refuted.
+
+(* ---- C20_rec: no unbounded recursion through include / tpl (pkg/engine/engine.go) ---- *)
+
+(* An execution is ANY sequence of enter / leave events of include, tpl and `template` calls with
+   any names and texts (every prefix of every execution, terminating or not).  tpl: when the key
+   of its counter is the same for every text, at most recursionMaxNums + 1 tpl calls are ever
+   nested *)
+Theorem C20_tpl_depth_bounded :
+  forall (c : rcfg) (t : list ev),
+    (0 <= rc_max c)%Z -> (0 <= rc_tmax c)%Z -> rc_tpl_on c = true ->
+    (forall x y, rc_tpl_key c x = rc_tpl_key c y) ->
+    (Z.of_nat (count_kind KTpl (s_stack (run_trace c rinit t))) <= rc_max c + 1)%Z.
+Proof. exact tpl_depth_bounded. Qed.
+Print Assumptions C20_tpl_depth_bounded.
+
+(* include: with the counter over all names (since 55109f6) at most recursionMaxNums + 1 include
+   calls are ever nested, whatever the names *)
+Theorem C20_include_depth_bounded :
+  forall (c : rcfg) (t : list ev) (tk : string),
+    (0 <= rc_max c)%Z -> (0 <= rc_tmax c)%Z -> rc_total c = Some tk ->
+    (Z.of_nat (count_kind KInclude (s_stack (run_trace c rinit t))) <= rc_max c + 1)%Z.
+Proof. exact include_depth_bounded. Qed.
+Print Assumptions C20_include_depth_bounded.
+
+(* include, from the per-name counters alone (all there was before 55109f6): a chain
+   a -> b -> c ... is bounded by the number of names times recursionMaxNums + 1 — finite for
+   every chart, but not a constant *)
+Theorem C20_include_per_name_bounded :
+  forall (c : rcfg) (t : list ev) (names : list string),
+    (0 <= rc_max c)%Z -> (0 <= rc_tmax c)%Z ->
+    (forall f, In f (s_stack (run_trace c rinit t)) -> f_kind f = KInclude ->
+               In (rc_inc_key c (f_arg f)) names) ->
+    (Z.of_nat (count_kind KInclude (s_stack (run_trace c rinit t))) <=
+     Z.of_nat (List.length names) * (rc_max c + 1))%Z.
+Proof. exact include_names_bounded. Qed.
+Print Assumptions C20_include_per_name_bounded.
+
+(* the whole call stack, frames of the `template` action included (text/template bounds them by
+   maxExecDepth per execution state, and every include / tpl starts a new state): a constant *)
+Theorem C20_render_stack_bounded :
+  forall (c : rcfg) (t : list ev) (tk : string),
+    (0 <= rc_max c)%Z -> (0 <= rc_tmax c)%Z -> rc_total c = Some tk -> rc_tpl_on c = true ->
+    (forall x y, rc_tpl_key c x = rc_tpl_key c y) ->
+    (Z.of_nat (List.length (s_stack (run_trace c rinit t))) <=
+     rc_tmax c + (rc_tmax c + 1) * (2 * (rc_max c + 1)))%Z.
+Proof. exact stack_depth_bounded. Qed.
+Print Assumptions C20_render_stack_bounded.
+
+Example C20_rec_hyps_met :
+  (0 <= rc_max engine_cfg)%Z /\ (0 <= rc_tmax engine_cfg)%Z /\ rc_total engine_cfg = Some include_depth_key /\
+  rc_tpl_on engine_cfg = true /\ (forall x y, rc_tpl_key engine_cfg x = rc_tpl_key engine_cfg y).
+Proof. exact engine_cfg_ok. Qed.
+Print Assumptions C20_rec_hyps_met.
+
+(* the translator's tables (Gen/C20Rec.v, from engine.go on every run): the keys that tplFun and
+   includeFun compare with recursionMaxNums, increment and decrement are those of the model; in
+   particular the tpl key does not depend on the template text *)
+Theorem C20_engine_counter_keys_table :
+  (forall text, engine_tpl_guard_keys text = [rc_tpl_key engine_cfg text]) /\
+  (forall text, engine_tpl_inc_keys text = engine_tpl_guard_keys text) /\
+  (forall text, engine_tpl_dec_keys text = engine_tpl_inc_keys text) /\
+  (forall name, engine_include_guard_keys name =
+                (match rc_total engine_cfg with Some k => [k] | None => [] end ++ [rc_inc_key engine_cfg name])%list) /\
+  (forall name, engine_include_inc_keys name = engine_include_guard_keys name) /\
+  (forall name, engine_include_dec_keys name = engine_include_inc_keys name) /\
+  rc_max engine_cfg = engine_recursion_max_nums.
+Proof. exact engine_keys_tie. Qed.
+Print Assumptions C20_engine_counter_keys_table.
+
+Theorem C20_engine_counter_keys_constant :
+  (forall t1 t2, engine_tpl_guard_keys t1 = engine_tpl_guard_keys t2) /\
+  (forall t, engine_tpl_guard_keys t <> []) /\
+  (forall n1 n2, hd_error (engine_include_guard_keys n1) = hd_error (engine_include_guard_keys n2)) /\
+  (forall n, hd_error (engine_include_guard_keys n) <> None).
+Proof. exact engine_keys_constant. Qed.
+Print Assumptions C20_engine_counter_keys_constant.
+
+(* the seeded change C20-7 (tpl counted per text): n tpl calls with n different texts nest n
+   deep, for every n *)
+Theorem C20_tpl_key_per_text_refuted :
+  forall n : nat,
+    count_kind KTpl (s_stack (run_trace engine_cfg_tpl_per_text rinit (tpl_trace n))) = n.
+Proof. exact (fun n => proj1 (proj2 (tpl_per_text_unbounded n))). Qed.
+Print Assumptions C20_tpl_key_per_text_refuted.
+
+(* found by this check: before 55109f6 three templates that include each other nested 3003 deep
+   (on the real engine 200 templates ran out of stack); with the counter over all names the same
+   calls stop at 1001 *)
+Theorem C20_include_cycle_refuted :
+  count_kind KInclude (s_stack (run_trace engine_cfg_per_name rinit (cycle_trace ["a"; "b"; "c"] 1100))) = 3003%nat /\
+  count_kind KInclude (s_stack (run_trace engine_cfg rinit (cycle_trace ["a"; "b"; "c"] 1100))) = 1001%nat.
+Proof. exact include_cycle_depth_real. Qed.
+Print Assumptions C20_include_cycle_refuted.
+
+(* the known finding K10: the bound of C20_render_stack_bounded is a product and it is attained —
+   `template` nests tmax deep inside each of max+1 include frames (here max = 2, tmax = 3) *)
+Theorem C20_include_times_template_refuted :
+  List.length (s_stack (run_trace tiny_cfg rinit (inc_tmpl_trace 10 10))) = 12%nat.
+Proof. exact include_times_template_depth. Qed.
+Print Assumptions C20_include_times_template_refuted.
+
+(* ---- C20_load_dir: only regular files of a chart directory are opened (no hang on a pipe) ---- *)
+
+(* for every kind of directory entry — regular, directory, named pipe, socket, device, character
+   device, irregular, and a symbolic link to each of them or to nothing — ignored or not, of any
+   size: os.ReadFile is called only on what resolves to a regular file *)
+Theorem C20_load_dir_only_regular_opened :
+  forall (top : bool) (e : etype) (ignored size_ok : bool),
+    entry_action gate_not_regular top e ignored size_ok = AOpen -> resolved e = Some FRegular.
+Proof. exact only_regular_opened. Qed.
+Print Assumptions C20_load_dir_only_regular_opened.
+
+(* ... and what becomes of every other entry: an error, or skipped as the code says *)
+Theorem C20_load_dir_entry_table :
+  forall (e : etype) (ignored size_ok : bool),
+    entry_action gate_not_regular false e ignored size_ok =
+    match resolved e with
+    | None => AErr
+    | Some FDir => if ignored then ASkipDir else ADescend
+    | Some FRegular => if ignored then ASkipFile else if size_ok then AOpen else AErr
+    | Some _ => if ignored then ASkipFile else AErr
+    end.
+Proof. exact entry_table. Qed.
+Print Assumptions C20_load_dir_entry_table.
+
+(* over a whole directory tree of any shape *)
+Theorem C20_load_dir_walk :
+  forall n : node, Forall (fun e => resolved e = Some FRegular) (opened gate_not_regular n).
+Proof. exact walk_opens_regular_only. Qed.
+Print Assumptions C20_load_dir_walk.
+
+(* the translator's table (Gen/C20Rec.v, from directory.go on every run): the conditions of the
+   walk callback that return before os.ReadFile, over all 128 combinations of the type bits of
+   os.FileMode and every value of the conditions that do not test the mode — os.ReadFile is
+   reached only for a mode without type bits (FileMode.IsRegular), and exactly when the model's
+   decision function says so *)
+Theorem C20_load_dir_gate_table :
+  forall (m : fmode) (o : list bool),
+    List.length o = loaddir_atoms ->
+    (loaddir_readfile_reached m o = true -> is_regular m = true) /\
+    loaddir_readfile_reached m o =
+      open_b (walk_fn gate_not_regular (nth 0 o false) (nth 1 o false) m (nth 2 o false) (negb (nth 3 o false))).
+Proof. exact gate_tie. Qed.
+Print Assumptions C20_load_dir_gate_table.
+
+(* the seeded change C20-8 (refuse only device / char-device / socket bits): a named pipe,
+   directly or behind a symbolic link, reaches os.ReadFile *)
+Theorem C20_load_dir_gate_refuted :
+  entry_action gate_c20_8 false (TPlain FPipe) false true = AOpen /\
+  entry_action gate_c20_8 false (TSymlink (Some FPipe)) false true = AOpen /\
+  entry_action gate_c20_8 false (TPlain FIrregular) false true = AOpen /\
+  existsb (fun m => negb (Bool.eqb (gate_c20_8 m) (negb (is_regular m)))) all_modes = true.
+Proof. exact gate_c20_8_opens_pipe. Qed.
+Print Assumptions C20_load_dir_gate_refuted.
